@@ -122,8 +122,9 @@ class Editor:
             if isinstance(x, Expression) and x.text in self.once:
                 self.once.remove(x.text)
         # expression subjects are copied: sharing one Expression object between two indexes would be the editor's own aliasing
-        t.add_index(Index([Expression(x.text) if isinstance(x, Expression) else x for x in src.subjects], name=src.name, unique=src.unique, type=src.type, pk=src.pk,
-                          note=src.note.text if src.note else None, comment=self.tok('twin index ')))
+        nix = Index([Expression(x.text) if isinstance(x, Expression) else x for x in src.subjects], name=src.name, unique=src.unique, type=src.type, pk=src.pk,
+                    note=src.note.text if src.note else None, comment=self.tok('twin index '))
+        self.add_checked(t.add_index, lambda: t.indexes, nix)
 
     def remove_index_by_object(self, t):
         """delete_index(obj): afterwards exactly that object is gone, the others are still there in order"""
@@ -151,6 +152,22 @@ class Editor:
         self.expect_token(owner, 'note', n.text)
         if id(owner) not in self.shared:
             self.once.append(n.text)
+
+    def add_checked(self, adder, container, obj):
+        """an element handed to add_* is, by identity, part of its container afterwards"""
+        adder(obj)
+        if not any(x is obj for x in container()):
+            self.lost.append(f'{getattr(adder, "__name__", "add")}({type(obj).__name__}): the object is not in its container afterwards')
+
+    def add_then_configure(self, t):
+        """the add-then-configure idiom: a bare index is added first (it may look like an existing one at that moment) and
+        given its flags and name afterwards"""
+        from pydbml.classes import Index
+        col = self.rng.choice(t.columns)
+        ix = Index([col])
+        self.add_checked(t.add_index, lambda: t.indexes, ix)
+        ix.unique = True
+        ix.name = self.tok('cfgix')
 
     def type_like_enum(self, c):
         """the column type becomes a TEXT spelled like the name of an enum of the database (it stays a text)"""
@@ -325,9 +342,10 @@ class Editor:
                     ('table-comment', lambda: self.set(t, 'comment', rng.choice([None, self.tok('cm ')]))),
                     ('add-column', lambda: t.add_column(Column(self.tok('nc'), rng.choice(['int', 'text']), pk=rng.random() < 0.2,
                                                               default=rng.choice([None, 0, 5, 'x', False])))),
-                    ('add-index', lambda: t.add_index(Index(rng.sample(t.columns, rng.randint(1, min(2, len(t.columns)))),
+                    ('add-index', lambda: self.add_checked(t.add_index, lambda: t.indexes, Index(rng.sample(t.columns, rng.randint(1, min(2, len(t.columns)))),
                                                             name=rng.choice([None, self.tok('ix')]), unique=rng.random() < 0.5,
                                                             pk=rng.random() < 0.2, type=rng.choice([None, 'btree', 'hash'])))),
+                    ('add-bare-index-then-configure', lambda: self.add_then_configure(t)),
                     ]
             if t.indexes:
                 out.append(('remove-index', lambda: t.delete_index(rng.randrange(len(t.indexes)))))
